@@ -163,3 +163,44 @@ func InstrDominates(a, b ssa.Instruction) bool {
 	}
 	return a.Block().Dominates(b.Block())
 }
+
+// ResultOf returns the i-th returned value of ret, looking through the result spill that
+// go/ssa introduces in functions with defers (`*res = v; rundefers; t = *res; return t`).
+func ResultOf(ret *ssa.Return, i int) ssa.Value {
+	if i >= len(ret.Results) {
+		return nil
+	}
+	v := ret.Results[i]
+	ld, ok := v.(*ssa.UnOp)
+	if !ok || ld.Op != token.MUL {
+		return v
+	}
+	al, ok := ld.X.(*ssa.Alloc)
+	if !ok {
+		return v
+	}
+	// last store to the cell before the load, walking up through unique predecessors
+	b := ld.Block()
+	idx := InstrIndex(ld)
+	for hops := 0; hops < 8 && b != nil; hops++ {
+		for j := idx - 1; j >= 0; j-- {
+			if st, ok := b.Instrs[j].(*ssa.Store); ok && st.Addr == ssa.Value(al) {
+				return st.Val
+			}
+		}
+		if len(b.Preds) != 1 {
+			break
+		}
+		b = b.Preds[0]
+		idx = len(b.Instrs)
+	}
+	return v
+}
+
+// LastResult is ResultOf for the final (error) result.
+func LastResult(ret *ssa.Return) ssa.Value {
+	if len(ret.Results) == 0 {
+		return nil
+	}
+	return ResultOf(ret, len(ret.Results)-1)
+}
